@@ -496,7 +496,7 @@ def main():
             L.append("op %d insert_range 3 %d %s" % (now, nk, " ".join("0 %d %d" % (k, 1 if a.kind == "ut_set" else 100000 + k) for k in keys)))
             L.append("op %d size" % now)
             now += tl * MS
-            L.append("op %d %s" % (now, rnd.choice(["find 7 0", "erase 9", "insert 0 3 5 3", "find_range 0 2 1 2500"])))
+            L.append("op %d %s" % (now, rnd.choice(["find 7 0", "erase 9", "insert 0 3 %d 3" % (1 if a.kind == "ut_set" else 5), "find_range 0 2 1 2500"])))
             L.append("op %d size" % now)
             L.append("probe %d" % now)
             L.append("op %d clean" % now)
